@@ -90,7 +90,7 @@ PROPS = {
     },
     "C16": {
         "rules": [r_fmt.run_c16, r_cost.run_c16, kind_scope("trainer::model", "raw_connector"),
-                  r_scorer.reserved0, r_scorer.padval, r_scorer.rowrange],
+                  r_scorer.reserved0, r_scorer.padval, r_scorer.rowrange, r_scorer.pruneset],
         "explanation": "FMT: bigram.left/right lines are `id TAB csv` with 1-based ids (what "
                        "parse_features and the id == line+1 check require); bigram.cost lines are "
                        "`left-word feature / right-word feature TAB cost`, matching the order in "
@@ -103,7 +103,8 @@ PROPS = {
         "technique": "format-template decoding + reader dataflow, scale-source comparison",
     },
     "C18": {
-        "rules": [kind_scope("trainer", "mecab"), r_fmt.bigram_files, r_codec.run_c18],
+        "rules": [kind_scope("trainer", "mecab"), r_fmt.bigram_files, r_codec.run_c18,
+                  r_misc.template_cover],
         "explanation": "KIND over the trainer: unigram/left/right templates, id tables and "
                        "next-id counters are never mixed (same-family rule on "
                        "extract_feature_ids), extract_left/right results reach the matching "
@@ -130,7 +131,8 @@ PROPS = {
         "technique": "format-template decoding + reader dataflow (sibling cross-check)",
     },
     "C20": {
-        "rules": [kind_scope("mecab"), r_cost.run_c20, r_fmt.bigram_files],
+        "rules": [kind_scope("mecab"), r_cost.run_c20, r_fmt.bigram_files, r_misc.template_cover,
+                  r_scorer.scorer_build],
         "explanation": "KIND: the documented left/right inversion of right-id.def/left-id.def is "
                        "applied consistently (readers, extractors, maps, writers, loop bounds vs "
                        "looked-up map); SIGN: cost = -(weight x factor); COSTTYPE: i32 as the "
@@ -397,7 +399,13 @@ _ADDED = {
     "C16": ("RESERVED0 / ROWRANGE: the BOS/EOS row of the raw connector is zeroed over its full "
             "width and rows are addressed by id * feat_template_size (the `including id 0` "
             "clause for more than 8 templates).", "symbolic index-range shape rule"),
-    "C18": ("CODEC over the model image: the hand-written FeatureExtractor / TrainerConfig "
+    "C20": ("TEMPLATE: the expansion that is matched against model.def lines copies every "
+            "literal segment of the template. SCORERBUILD: the double array places a row only at "
+            "a base that check_base found free for all of its keys.",
+            "loop-shape rule over symbolic slices"),
+    "C18": ("TEMPLATE: extract_feature_ids copies every literal segment of a template (before "
+            "each placeholder on every iteration, and the tail after the last one). "
+            "CODEC over the model image: the hand-written FeatureExtractor / TrainerConfig "
             "codecs write and read the same fields in the same order (the id tables and next-id "
             "counters decide `different strings -> different ids` after read_model).",
             "sibling cross-check of encoder/decoder MIR"),
